@@ -399,6 +399,8 @@ func init() {
 					v = t.Val.S.V
 				case ArgSafeStr:
 					v = errors.Safe(t.Val.S.V)
+				case ArgStringer:
+					v = UStringer{V: t.Val.S.V}
 				case ArgInt:
 					if t.Val.N >= 0 {
 						v = t.Val.N
@@ -589,6 +591,16 @@ func fmtArgs(lit Str, args []Arg, hid []error) (string, []interface{}) {
 				verb = "%v"
 			}
 			a = append(a, hid[x.Hid])
+		case ArgSafeFmt:
+			if verb == "" {
+				verb = "%v"
+			}
+			a = append(a, UFmtArg{SafePart: x.S.V, UnsafePart: x.S2.V})
+		case ArgStringer:
+			if verb == "" {
+				verb = "%s"
+			}
+			a = append(a, UStringer{V: x.S.V})
 		}
 		f += " " + verb
 	}
